@@ -13,6 +13,7 @@ import (
 
 func init() {
 	reg("H_C01_receivers", H_C01_receivers)
+	reg("H_C01_denoms", H_C01_denoms)
 	reg("H_C01_payloads", H_C01_payloads)
 	reg("H_C01_faults", H_C01_faults)
 	reg("H_C01_sequence", H_C01_sequence)
@@ -32,6 +33,7 @@ func init() {
 // the same harness under two bounds profiles: all receiver spellings / denoms / amounts with a plain payload, and the two
 // spellings of the orbiter address with every payload shape, pause and parameter configuration
 func H_C01_receivers() { H_C01_recv() }
+func H_C01_denoms()    { H_C01_recv() } // the two spellings of the orbiter address x every denomination class and amount spelling
 func H_C01_payloads()  { H_C01_recv() }
 func H_C01_faults()    { H_C01_recv() }        // the same with a failure bit at every environment call
 func H_C01_sequence()  { H_C01_recv() }        // the same after an earlier complete transfer on the same keeper and controllers
